@@ -18,10 +18,10 @@ import (
 // ill-shaped table must be rejected.
 
 type c17Fn struct {
-	name   string
-	l, r   gen.Ty // TAny = interface{} parameter (matches everything)
-	out    gen.Ty
-	iface  string // "any" | "stringer" | ""
+	name  string
+	l, r  gen.Ty // TAny = interface{} parameter (matches everything)
+	out   gen.Ty
+	iface string // "any" | "stringer" | ""
 }
 
 type c17Table struct {
